@@ -909,7 +909,25 @@ def rule_loop_index(site, body):
         xi, yi = flow.root_local(body, x) if op_local(x) is not None else None, flow.root_local(body, y) if op_local(y) is not None else None
         for lc in lens:
             lv = flow.derived(body, {lc.dest["l"]}, calls=())
-            is_lt = (op == "Lt" and xi == idx_root and op_local(y) in lv) or (op == "Gt" and yi == idx_root and op_local(x) in lv)
+            def _idx_plus(o):
+                # `idx + c < len` (c a non-negative constant) implies `idx < len`
+                if op_local(o) is None:
+                    return False
+                r_ = flow.root(body, o)
+                for _ in range(3):
+                    # the `.0` of a checked addition's (value, overflowed) pair
+                    src_ = r_[1]["op"] if r_[0] == "rv" and r_[1]["k"] == "use" and r_[1]["op"].get("k") in ("copy", "move") else (o if r_[0] in ("local", "multi") else None)
+                    if src_ is not None and src_["pl"]["p"] == [0]:
+                        d_ = flow.single_def(body, src_["pl"]["l"])
+                        if d_ and d_[0] == "assign":
+                            r_ = ("rv", d_[3])
+                            continue
+                    break
+                if r_[0] == "rv" and r_[1]["k"] == "binop" and r_[1]["op"] in ("Add", "AddWithOverflow", "AddUnchecked"):
+                    cv = flow.const_of(r_[1]["b"])
+                    return isinstance(cv, int) and cv >= 0 and op_local(r_[1]["a"]) is not None and flow.root_local(body, r_[1]["a"]) == idx_root
+                return False
+            is_lt = (op == "Lt" and (xi == idx_root or _idx_plus(x)) and op_local(y) in lv) or (op == "Gt" and (yi == idx_root or _idx_plus(y)) and op_local(x) in lv)
             if not is_lt:
                 continue
             glp = lp
